@@ -30,6 +30,11 @@ func main() {
 		strMax = 1100
 	}
 	d.StringLengths(strMax)
+	nsMax := 70
+	if run.Thorough() {
+		nsMax = 300
+	}
+	d.NamespaceDepths(nsMax)
 	d.F2(strLen)
 	d.F3(levels, true)
 	// all 256 level values on the default configuration
